@@ -11,9 +11,9 @@ open Complex (I)
 
 /-! ### mean -/
 
-theorem meanEst_length (lin circ : Nat) (cols : List (List ℝ)) (ws : List ℝ) :
-    (meanEst lin circ cols ws).length = lin + circ := by
-  unfold meanEst
+theorem meanEstE_length (lin circ : Nat) (cols : List (List ℝ)) (ex : List ℝ) :
+    (meanEstE lin circ cols ex).length = lin + circ := by
+  unfold meanEstE
   simp only [List.length_append]
   congr 1
   · split
@@ -23,27 +23,37 @@ theorem meanEst_length (lin circ : Nat) (cols : List (List ℝ)) (ws : List ℝ)
     · simp
     · rename_i h; simp; omega
 
-theorem meanEst_lin (lin circ : Nat) (cols : List (List ℝ)) (ws : List ℝ) (r : Nat) (hr : r < lin) :
-    (meanEst lin circ cols ws)[r]? = some (linMean (rowOf cols r) (ws.map Real.exp)) := by
-  unfold meanEst
-  simp only
+theorem meanEstE_lin (lin circ : Nat) (cols : List (List ℝ)) (ex : List ℝ) (r : Nat) (hr : r < lin) :
+    (meanEstE lin circ cols ex)[r]? = some (linMean (rowOf cols r) ex) := by
+  unfold meanEstE
   rw [if_pos (by omega : lin > 0)]
   rw [List.getElem?_append_left (by simpa using hr)]
   simp [hr]
-  rfl
 
-theorem meanEst_circ (lin circ : Nat) (cols : List (List ℝ)) (ws : List ℝ) (r : Nat) (hr : r < circ) :
-    (meanEst lin circ cols ws)[lin + r]? = some (dirMean (rowOf cols (lin + r)) (ws.map Real.exp)) := by
-  unfold meanEst
-  simp only
+theorem meanEstE_circ (lin circ : Nat) (cols : List (List ℝ)) (ex : List ℝ) (r : Nat) (hr : r < circ) :
+    (meanEstE lin circ cols ex)[lin + r]? = some (dirMean (rowOf cols (lin + r)) ex) := by
+  unfold meanEstE
   have hlen : (if lin > 0 then (List.range lin).map
-      (fun r => linMean (rowOf cols r) (ws.map (Transc.exp : ℝ → ℝ))) else []).length = lin := by
+      (fun r => linMean (rowOf cols r) ex) else []).length = lin := by
     split
     · simp
     · rename_i h; simp; omega
   rw [List.getElem?_append_right (by rw [hlen]; omega), hlen, if_pos (by omega : circ > 0)]
   simp [hr]
-  rfl
+
+theorem meanEst_eq (lin circ : Nat) (cols : List (List ℝ)) (ws : List ℝ) :
+    meanEst lin circ cols ws = meanEstE lin circ cols (ws.map Real.exp) := rfl
+
+theorem meanEst_length (lin circ : Nat) (cols : List (List ℝ)) (ws : List ℝ) :
+    (meanEst lin circ cols ws).length = lin + circ := meanEstE_length _ _ _ _
+
+theorem meanEst_lin (lin circ : Nat) (cols : List (List ℝ)) (ws : List ℝ) (r : Nat) (hr : r < lin) :
+    (meanEst lin circ cols ws)[r]? = some (linMean (rowOf cols r) (ws.map Real.exp)) :=
+  meanEstE_lin lin circ cols _ r hr
+
+theorem meanEst_circ (lin circ : Nat) (cols : List (List ℝ)) (ws : List ℝ) (r : Nat) (hr : r < circ) :
+    (meanEst lin circ cols ws)[lin + r]? = some (dirMean (rowOf cols (lin + r)) (ws.map Real.exp)) :=
+  meanEstE_circ lin circ cols _ r hr
 
 /-- a linear row of the mean is `Σ_j x_j · e^{w_j}` -/
 theorem linMean_eq (cols : List (List ℝ)) (ws : List ℝ) (r : Nat) :
